@@ -8,7 +8,7 @@ RULE = ("C05 families plus fork-specific ones (every template x every push form 
         "token boundary; wrong/missing/extra tokens; PUSHDATA edge cases) x the 6 fork coins, through the real evaluator (release + "
         "debug); verdict compared with the push-rule tokenizer + template reference (version bytes 0x34,0x30,0x1e,0x32,0x82,0x35 from the "
         "property), no Error pattern, no panic; addresses decoded independently; black-box sample through csvdump/unspent/simplestats/opreturn. "
-        "recur_far: 2^16+ distinct destinations evaluated in ONE process, then destinations from all over that history return, unchanged and in another role. distinct = (family, observed type, address present) signatures")
+        "recur_far: 2^16+ distinct destinations evaluated in ONE process, then destinations from all over that history return, unchanged and in another role. Key material: half of all keys are real secp256k1 points in compressed, uncompressed and hybrid (06/07) form, plus hybrid prefixes with the wrong parity. distinct = (family, observed type, address present) signatures")
 
 
 def plan(chk):
